@@ -280,7 +280,9 @@ func (w *srvWorld) genScript() hscript {
 	s := hscript{Steps: g.Int("hsteps", 4)}
 	s.Hold = g.Chance("hold", w.cfg.HoldP)
 	s.RespectCtx = g.Chance("respect", 0.5)
-	s.Outcome = g.Weighted("outcome", []int{6, 3, 2})
+	// 0 result, 1 application error, 2 ctx.Err() if cancelled else result,
+	// 3 a pre-encoded result that is not valid JSON, 4 a pre-encoded result with inner line breaks
+	s.Outcome = g.Weighted("outcome", []int{6, 3, 2, 1, 1})
 	// a handler may return any code, including the ones the protocol uses itself
 	s.ErrCode = []int{0, 0, 0, -32600, -32700, -32602, -32603, -32601}[g.Int("errcode", 8)]
 	return s
@@ -575,11 +577,19 @@ func (w *srvWorld) handle(ctx context.Context, req *jrpc2.Request) (any, error) 
 			err = e
 		}
 	}
-	if err == nil {
+	switch {
+	case err != nil:
+		m.HErr = err.Error()
+	case m.Script.Outcome == 3:
+		// a result that cannot be encoded: the call must be answered with an error
+		val = json.RawMessage(fmt.Sprintf(`{"n":%d,"tag":%q,`, m.Enters, m.Tag))
+		m.HErr = "unencodable result"
+	case m.Script.Outcome == 4:
+		val = json.RawMessage(fmt.Sprintf("{\n  \"n\": %d,\n\t\"tag\": %q\n}", m.Enters, m.Tag))
+		m.Result = fmt.Sprintf(`{"n":%d,"tag":%q}`, m.Enters, m.Tag)
+	default:
 		val = map[string]any{"tag": m.Tag, "n": m.Enters}
 		m.Result = fmt.Sprintf(`{"n":%d,"tag":%q}`, m.Enters, m.Tag)
-	} else {
-		m.HErr = err.Error()
 	}
 	w.running--
 	m.Exit = w.seq()
